@@ -68,6 +68,48 @@ pub fn check_tokens(rs: &RefSentence) -> TestResult {
         })
         .collect();
     ensure_eq!(got, want, "token list differs from the reference segmentation (labels {:?})", rs.labels);
+    // the same tokens whichever way the iterator is consumed (for_each / fold / count / last /
+    // nth / a partly consumed iterator handed to an adaptor), each reported once
+    let spans: Vec<(usize, usize)> = want.iter().map(|w| (w.0, w.1)).collect();
+    let mut via_for_each = vec![];
+    s.iter_tokens().for_each(|t| via_for_each.push((t.start(), t.end())));
+    ensure_eq!(&via_for_each, &spans, "for_each yields other tokens than next() (labels {:?})", rs.labels);
+    let via_fold = s.iter_tokens().fold(vec![], |mut v, t| {
+        v.push((t.start(), t.end()));
+        v
+    });
+    ensure_eq!(&via_fold, &spans, "fold yields other tokens than next() (labels {:?})", rs.labels);
+    ensure_eq!(s.iter_tokens().count(), spans.len(), "count() (labels {:?})", rs.labels);
+    ensure_eq!(
+        s.iter_tokens().last().map(|t| (t.start(), t.end())),
+        spans.last().copied(),
+        "last() (labels {:?})",
+        rs.labels
+    );
+    ensure_eq!(
+        s.iter_tokens().map(|t| t.surface().to_string()).collect::<String>(),
+        want.iter().map(|w| w.2.as_str()).collect::<String>(),
+        "surfaces collected into a String"
+    );
+    for k in [0usize, 1, spans.len().saturating_sub(1), spans.len()] {
+        ensure_eq!(
+            s.iter_tokens().nth(k).map(|t| (t.start(), t.end())),
+            spans.get(k).copied(),
+            "nth({k}) (labels {:?})",
+            rs.labels
+        );
+        let mut it = s.iter_tokens();
+        for _ in 0..k.min(spans.len()) {
+            it.next();
+        }
+        let rest: Vec<(usize, usize)> = it.map(|t| (t.start(), t.end())).collect();
+        ensure_eq!(&rest[..], &spans[k.min(spans.len())..], "rest after {k} x next() (labels {:?})", rs.labels);
+        let mut it = s.iter_tokens();
+        for _ in 0..k.min(spans.len()) {
+            it.next();
+        }
+        ensure_eq!(it.count(), spans.len() - k.min(spans.len()), "count() after {k} x next()");
+    }
     let mut buf = String::from("stale");
     s.write_tokenized_text(&mut buf);
     ensure_eq!(
@@ -191,6 +233,14 @@ long runs of skipped segments",
             LabelCase { text, labels, n_tags: k % 3 }
         }),
         |c: &LabelCase| check_tokens(&to_ref(c)),
+    );
+    rep.run_enum(
+        "scale-sentences",
+        "the deterministic scale sentences shared with C03/C04 (65,535 .. 131,080 characters with \
+unknown labels, a 70,000-character token, 70,000 one-character tokens, 255..300 tag columns)",
+        false,
+        gen::scale_sentences(3, false).into_iter(),
+        |r: &RefSentence| check_tokens(r).map(|mut i| { i.nontrivial = true; i }),
     );
     let n = rep.n(50000, 10000000);
     rep.run_prop(
